@@ -87,7 +87,9 @@ def main():
             d = os.path.join(top, 'find_%s' % f['id']); os.makedirs(d, exist_ok=True)
             nrep += 1
             if f['line'].startswith('fixed:'):
-                bad, det = confirm(check, tree, rep, d)
+                bad, det = do_replay(check, tree, rep, d)
+                if bad:
+                    bad, det = confirm(check, tree, rep, d)
                 if bad:
                     viol_lines.append((rp, 'regression of fixed defect %s: %s' % (f['id'], det)))
             else:
